@@ -81,7 +81,9 @@ func runC14(c *core.Ctx) {
 // extreme constant of the comparison direction and then updated under a strict comparison whose branch
 // also records something else (an index, a flag); a pure running minimum/maximum is harmless and is
 // accepted.
-func c14Extremum(c *core.Ctx, pkg *packages.Package) {
+func c14Extremum(c *core.Ctx, pkg *packages.Package) { c14ExtremumAs(c, pkg, "R7") }
+
+func c14ExtremumAs(c *core.Ctx, pkg *packages.Package, R string) {
 	n := 0
 	var all []*an.Fn
 	for _, top := range an.Funcs(pkg) {
@@ -157,10 +159,10 @@ func c14Extremum(c *core.Ctx, pkg *packages.Package) {
 		})
 	}
 	if len(bad) > 0 {
-		c.Viol("R7", "selection-sentinel", badPos, strings.Join(bad, "; "))
+		c.Viol(R, "selection-sentinel", badPos, strings.Join(bad, "; "))
 		return
 	}
-	c.Hold("R7", "selection-sentinel", pkg.Syntax[0].Pos(), fmt.Sprintf("%d strict comparisons against uint32 locals examined in package ring: none is a selection that starts from the extreme value of the domain", n), n)
+	c.Hold(R, "selection-sentinel", pkg.Syntax[0].Pos(), fmt.Sprintf("%d strict comparisons against uint32 locals examined in package ring: none is a selection that starts from the extreme value of the domain", n), n)
 }
 
 func flipCmp(op token.Token) token.Token {
